@@ -781,10 +781,12 @@ func parseType(parser *Parser) (ttype ast.Type, err error) {
 		if ttype, err = parseType(parser); err != nil {
 			return nil, err
 		}
-		fallthrough
-	case lexer.BRACKET_R:
-		if err = advance(parser); err != nil {
-			return nil, err
+		// the list must be closed; at the end of the input the caller, which
+		// always needs a further token, reports the unexpected EOF
+		if parser.Token.Kind != lexer.EOF {
+			if _, err = expect(parser, lexer.BRACKET_R); err != nil {
+				return nil, err
+			}
 		}
 		ttype = ast.NewList(&ast.List{
 			Type: ttype,
@@ -794,6 +796,10 @@ func parseType(parser *Parser) (ttype ast.Type, err error) {
 		if ttype, err = parseNamed(parser); err != nil {
 			return nil, err
 		}
+	case lexer.EOF:
+		// nothing to parse: left to the caller (see above)
+	default:
+		return nil, unexpected(parser, lexer.Token{})
 	}
 
 	// BANG must be executed
